@@ -19,8 +19,8 @@ import (
 	dbm "github.com/tendermint/tm-db"
 
 	"github.com/tendermint/tendermint/evidence"
-	sm "github.com/tendermint/tendermint/state"
 	tmproto "github.com/tendermint/tendermint/proto/tendermint/types"
+	sm "github.com/tendermint/tendermint/state"
 	"github.com/tendermint/tendermint/types"
 	"pgregory.net/rapid"
 
@@ -31,17 +31,17 @@ func TestMain(m *testing.M) { lib.Main(m) }
 
 // known-finding ids (active only when /verif/known_findings.json lists them with status "known")
 const (
-	kfSizeDrift  = "C11-size-drift"            // CheckEvidence re-adds pending light-client evidence: Size() > #pending
-	kfAmnesia    = "C11-amnesia-empty-list"    // amnesia evidence decoded from the wire (empty, non-nil list) is rejected
-	kfUnverified = "C11-unverified-signatures" // validators are named byzantine on the strength of unverified signatures
-	kfForward    = "C11-forward-lunatic"       // forward lunatic evidence is never verifiable (no canonical commit of the tip)
-	kfExpired    = "C11-expired-pending"       // expired evidence that is still pending is accepted inside a block
-	kfPanic      = "C11-nil-validator-panic"   // a commit slot naming a non-member makes GetByzantineValidators panic
-	kfIndex      = "C11-validator-index-malleable" // duplicate-vote evidence verifies with any Vote.ValidatorIndex: new hash, same offence
-	kfCrash      = "C11-update-lost-in-crash"      // crash between SaveBlock and Pool.Update: replay uses EmptyEvidencePool
+	kfSizeDrift  = "C11-size-drift"                     // CheckEvidence re-adds pending light-client evidence: Size() > #pending
+	kfAmnesia    = "C11-amnesia-empty-list"             // amnesia evidence decoded from the wire (empty, non-nil list) is rejected
+	kfUnverified = "C11-unverified-signatures"          // validators are named byzantine on the strength of unverified signatures
+	kfForward    = "C11-forward-lunatic"                // forward lunatic evidence is never verifiable (no canonical commit of the tip)
+	kfExpired    = "C11-expired-pending"                // expired evidence that is still pending is accepted inside a block
+	kfPanic      = "C11-nil-validator-panic"            // a commit slot naming a non-member makes GetByzantineValidators panic
+	kfIndex      = "C11-validator-index-malleable"      // duplicate-vote evidence verifies with any Vote.ValidatorIndex: new hash, same offence
+	kfCrash      = "C11-update-lost-in-crash"           // crash between SaveBlock and Pool.Update: replay uses EmptyEvidencePool
 	kfRepeated   = "C11-repeated-validator-named-twice" // a validator listed twice in the conflicting set is named (punished) twice
 	kfReanchor   = "C11-same-block-other-common-height" // one conflicting block is new evidence for every admissible common height
-	kfRace       = "C11-add-evidence-not-atomic"   // AddEvidence interleaved with AddEvidence / CheckEvidence / Update
+	kfRace       = "C11-add-evidence-not-atomic"        // AddEvidence interleaved with AddEvidence / CheckEvidence / Update
 )
 
 // guarded runs a pool call; a panic is returned instead of propagated so that it can be matched against the
@@ -268,15 +268,15 @@ type model struct {
 	committedList []*mItem
 	// conflicting block hash -> hash of the committed light-client evidence that carried it
 	committedBlocks map[string]string
-	blind         map[string]bool
-	crashes       int // crashes between SaveBlock and Pool.Update (block replayed by the handshake)
-	bigRestarts   int // restarts with more pending evidence than fits one block (Evidence.MaxBytes)
-	blindCommits  int
-	blindReoffers int
-	drift     int // upper bound of the tolerated Size() excess (known finding kfSizeDrift only)
+	blind           map[string]bool
+	crashes         int // crashes between SaveBlock and Pool.Update (block replayed by the handshake)
+	bigRestarts     int // restarts with more pending evidence than fits one block (Evidence.MaxBytes)
+	blindCommits    int
+	blindReoffers   int
+	drift           int // upper bound of the tolerated Size() excess (known finding kfSizeDrift only)
 
 	commits, reoffers, expiries, restarts, reports, reportsFlushed, dupLists int
-	ops                                                                       []string
+	ops                                                                      []string
 }
 
 func (m *model) log(f string, a ...interface{}) { m.ops = append(m.ops, fmt.Sprintf(f, a...)) }
